@@ -71,6 +71,43 @@ func LoadProgram(dir string, tags string, patterns []string) (*Program, error) {
 		}
 		p.Funcs[k] = fn
 	}
+	// declared methods of generic types that nothing instantiates through a method set (AllFunctions
+	// walks runtime types only): register their generic bodies too
+	for _, sp := range spkgs {
+		if sp == nil {
+			continue
+		}
+		for _, m := range sp.Members {
+			t, ok := m.(*ssa.Type)
+			if !ok {
+				continue
+			}
+			n, ok := types.Unalias(t.Type()).(*types.Named)
+			if !ok {
+				continue
+			}
+			for i := 0; i < n.NumMethods(); i++ {
+				fn := prog.FuncValue(n.Method(i))
+				if fn == nil || fn.Origin() != nil {
+					continue
+				}
+				k := FuncKey(fn)
+				if k == "" {
+					continue
+				}
+				if _, ok := p.Funcs[k]; !ok {
+					p.Funcs[k] = fn
+					for _, an := range fn.AnonFuncs {
+						if ak := FuncKey(an); ak != "" {
+							if _, ok := p.Funcs[ak]; !ok {
+								p.Funcs[ak] = an
+							}
+						}
+					}
+				}
+			}
+		}
+	}
 	return p, nil
 }
 
